@@ -210,16 +210,19 @@ class SPSCRingBuffer {
    * @endcode
    */
   bool try_push(T&& item) {
+    DISPENSO_VERIF_POINT("PushLdTail", this);
     const size_t currentTail = tail_.load(std::memory_order_relaxed);
     const size_t nextTail = increment(currentTail);
 
     // Check if buffer is full
+    DISPENSO_VERIF_POINT("PushLdHead", this);
     if (nextTail == head_.load(std::memory_order_acquire)) {
       return false;
     }
 
     // Construct element in-place
     new (elementAt(currentTail)) T(std::move(item));
+    DISPENSO_VERIF_POINT("PushStTail", this);
     tail_.store(nextTail, std::memory_order_release);
     return true;
   }
@@ -239,16 +242,19 @@ class SPSCRingBuffer {
    * @note Prefer try_push(T&&) when the source element is no longer needed.
    */
   bool try_push(const T& item) {
+    DISPENSO_VERIF_POINT("PushLdTail", this);
     const size_t currentTail = tail_.load(std::memory_order_relaxed);
     const size_t nextTail = increment(currentTail);
 
     // Check if buffer is full
+    DISPENSO_VERIF_POINT("PushLdHead", this);
     if (nextTail == head_.load(std::memory_order_acquire)) {
       return false;
     }
 
     // Construct element in-place via copy
     new (elementAt(currentTail)) T(item);
+    DISPENSO_VERIF_POINT("PushStTail", this);
     tail_.store(nextTail, std::memory_order_release);
     return true;
   }
@@ -276,16 +282,19 @@ class SPSCRingBuffer {
    */
   template <typename... Args>
   bool try_emplace(Args&&... args) {
+    DISPENSO_VERIF_POINT("PushLdTail", this);
     const size_t currentTail = tail_.load(std::memory_order_relaxed);
     const size_t nextTail = increment(currentTail);
 
     // Check if buffer is full
+    DISPENSO_VERIF_POINT("PushLdHead", this);
     if (nextTail == head_.load(std::memory_order_acquire)) {
       return false;
     }
 
     // Construct element in-place
     new (elementAt(currentTail)) T(std::forward<Args>(args)...);
+    DISPENSO_VERIF_POINT("PushStTail", this);
     tail_.store(nextTail, std::memory_order_release);
     return true;
   }
@@ -315,9 +324,11 @@ class SPSCRingBuffer {
    * @endcode
    */
   bool try_pop(T& item) {
+    DISPENSO_VERIF_POINT("PopLdHead", this);
     const size_t currentHead = head_.load(std::memory_order_relaxed);
 
     // Check if buffer is empty
+    DISPENSO_VERIF_POINT("PopLdTail", this);
     if (currentHead == tail_.load(std::memory_order_acquire)) {
       return false;
     }
@@ -325,6 +336,7 @@ class SPSCRingBuffer {
     T* elem = elementAt(currentHead);
     item = std::move(*elem);
     elem->~T();
+    DISPENSO_VERIF_POINT("PopStHead", this);
     head_.store(increment(currentHead), std::memory_order_release);
     return true;
   }
@@ -356,9 +368,11 @@ class SPSCRingBuffer {
    * @endcode
    */
   OpResult<T> try_pop() {
+    DISPENSO_VERIF_POINT("PopLdHead", this);
     const size_t currentHead = head_.load(std::memory_order_relaxed);
 
     // Check if buffer is empty
+    DISPENSO_VERIF_POINT("PopLdTail", this);
     if (currentHead == tail_.load(std::memory_order_acquire)) {
       return {};
     }
@@ -366,6 +380,7 @@ class SPSCRingBuffer {
     T* elem = elementAt(currentHead);
     OpResult<T> result(std::move(*elem));
     elem->~T();
+    DISPENSO_VERIF_POINT("PopStHead", this);
     head_.store(increment(currentHead), std::memory_order_release);
     return result;
   }
@@ -396,9 +411,11 @@ class SPSCRingBuffer {
    * @endcode
    */
   bool try_pop_into(T* storage) {
+    DISPENSO_VERIF_POINT("PopLdHead", this);
     const size_t currentHead = head_.load(std::memory_order_relaxed);
 
     // Check if buffer is empty
+    DISPENSO_VERIF_POINT("PopLdTail", this);
     if (currentHead == tail_.load(std::memory_order_acquire)) {
       return false;
     }
@@ -406,6 +423,7 @@ class SPSCRingBuffer {
     T* elem = elementAt(currentHead);
     new (storage) T(std::move(*elem));
     elem->~T();
+    DISPENSO_VERIF_POINT("PopStHead", this);
     head_.store(increment(currentHead), std::memory_order_release);
     return true;
   }
@@ -436,7 +454,9 @@ class SPSCRingBuffer {
    */
   template <typename InputIt>
   size_type try_push_batch(InputIt first, InputIt last) {
+    DISPENSO_VERIF_POINT("BatLdTail", this);
     const size_t currentTail = tail_.load(std::memory_order_relaxed);
+    DISPENSO_VERIF_POINT("BatLdHead", this);
     const size_t currentHead = head_.load(std::memory_order_acquire);
 
     // Calculate available space (actual capacity is kBufferSize - 1)
@@ -462,6 +482,7 @@ class SPSCRingBuffer {
     }
 
     if (count > 0) {
+      DISPENSO_VERIF_POINT("BatStTail", this);
       tail_.store(tailPos, std::memory_order_release);
     }
     return count;
@@ -494,7 +515,9 @@ class SPSCRingBuffer {
    */
   template <typename OutputIt>
   size_type try_pop_batch(OutputIt dest, size_type maxCount) {
+    DISPENSO_VERIF_POINT("PbLdHead", this);
     const size_t currentHead = head_.load(std::memory_order_relaxed);
+    DISPENSO_VERIF_POINT("PbLdTail", this);
     const size_t currentTail = tail_.load(std::memory_order_acquire);
 
     // Calculate available items
@@ -520,6 +543,7 @@ class SPSCRingBuffer {
     }
 
     if (count > 0) {
+      DISPENSO_VERIF_POINT("PbStHead", this);
       head_.store(headPos, std::memory_order_release);
     }
     return count;
@@ -537,6 +561,7 @@ class SPSCRingBuffer {
    * @note Safe to call from any thread, but the result is only a hint.
    */
   bool empty() const {
+    DISPENSO_VERIF_POINT("ObsBoth", this);
     return head_.load(std::memory_order_acquire) == tail_.load(std::memory_order_acquire);
   }
 
@@ -552,6 +577,7 @@ class SPSCRingBuffer {
    * @note Safe to call from any thread, but the result is only a hint.
    */
   bool full() const {
+    DISPENSO_VERIF_POINT("ObsBoth", this);
     return increment(tail_.load(std::memory_order_acquire)) ==
         head_.load(std::memory_order_acquire);
   }
@@ -570,7 +596,9 @@ class SPSCRingBuffer {
    *       arithmetic.
    */
   size_type size() const {
+    DISPENSO_VERIF_POINT("ObsLd1", this);
     const size_t head = head_.load(std::memory_order_acquire);
+    DISPENSO_VERIF_POINT("ObsLd2", this);
     const size_t tail = tail_.load(std::memory_order_acquire);
     // Handle wrap-around: if tail < head, we've wrapped
     return (tail >= head) ? (tail - head) : (kBufferSize - head + tail);
